@@ -5,4 +5,4 @@ Require ExtrOcamlBasic.
 Extraction "../extract/gen/gr_model.ml"
   il_of_code mk_geom m_create s_create m_setfill s_setfill m_setcomp m_setchunk s_setchunk
   m_writeimage s_writeimage m_readimage s_readimage m_reqil s_reqil m_reqlutil s_reqlutil
-  m_reopen s_reopen m_info s_info m_writelut s_writelut m_readlut s_readlut m_dump v_walk v_spec nt_size.
+  m_reopen s_reopen m_info s_info m_writelut s_writelut m_readlut s_readlut m_dump v_walk v_spec nt_size m_legacy s_legacy m_dump_rle u_case m_writechunk s_writechunk m_readchunk s_readchunk.
